@@ -8,4 +8,5 @@ mkdir -p .build out evidence
 ./ocaml/build.sh
 cp /repo/Cargo.lock harness/Cargo.lock
 ( cd harness && cargo build --offline -q --features hooks && cargo build --offline -q --release --features hooks )
+./harness_cpp/build.sh >/dev/null
 echo setup-ok
